@@ -585,9 +585,9 @@ package tengo
 //@   requires b.MainFunction != nil
 //@   assigns *
 //@   let consts = b.Constants
-//@   loop 0 assigns indexMap[*], fns[*], ints[*], strings[*], floats[*], chars[*], immutableMaps[*]
+//@   loop 0 assigns indexMap[*], fns[*], ints[*], strings[*], floats[*], chars[*], immutableMaps[*], deduped[*]
 //@   loop 0 invariant idx: 0 <= rangeindex+1 && rangeindex+1 <= len(consts)
-//@   loop 0 invariant fresh_store{C12}: cap(deduped) > 0 ==> freshloop(deduped)
+//@   loop 0 invariant fresh_store{C12}: cap(deduped) > 0 ==> freshloop(deduped) || (pre(cap(deduped)) > 0 && fresh(deduped) && samearray(deduped, pre(deduped)))
 //@   loop 0 invariant mapped{C02,C12}: forall i in 0..rangeindex+1 :: haskey(indexMap, i) && 0 <= indexMap[i] && indexMap[i] < len(deduped)
 //@   loop 0 invariant same_kind{C12}: forall i in 0..rangeindex+1 :: tagof(deduped[indexMap[i]]) == tagof(old(consts[i]))
 //@   loop 0 invariant fns_rng{C02,C12}: forall k *CompiledFunction :: haskey(fns, k) ==> 0 <= fns[k] && fns[k] < len(deduped) && deduped[fns[k]] == k
@@ -1027,8 +1027,8 @@ package tengo
 //@   ensures bound{C15}: forall i in 0..len(result) :: haskey(c.globalIndexes, result[i].name)
 //@                   && (c.globals[c.globalIndexes[result[i].name]] != nil ==> result[i].value == c.globals[c.globalIndexes[result[i].name]])
 //@                   && (c.globals[c.globalIndexes[result[i].name]] == nil ==> result[i].value == UndefinedValue)
-//@   loop 0 invariant store: cap(vars) > 0 ==> freshloop(vars)
-//@   loop 0 invariant defined{C15}: forall i in 0..len(vars) :: vars[i] != nil && freshloop(vars[i]) && vars[i].value != nil
+//@   loop 0 invariant store: cap(vars) > 0 ==> fresh(vars)
+//@   loop 0 invariant defined{C15}: forall i in 0..len(vars) :: vars[i] != nil && fresh(vars[i]) && vars[i].value != nil
 //@   loop 0 invariant bound{C15}: forall i in 0..len(vars) :: haskey(c.globalIndexes, vars[i].name)
 //@                   && (c.globals[c.globalIndexes[vars[i].name]] != nil ==> vars[i].value == c.globals[c.globalIndexes[vars[i].name]])
 //@                   && (c.globals[c.globalIndexes[vars[i].name]] == nil ==> vars[i].value == UndefinedValue)
